@@ -69,6 +69,34 @@ func Bytes(name string, n int) []byte {
 
 func String(name string, n int) string { return string(Bytes(name, n)) }
 
+// ByteFrom is a symbolic byte constrained to the given alphabet (one
+// disjunction for the solver, no forking).
+func ByteFrom(name, alphabet string) byte {
+	b := byte(next(name, "u8"))
+	if !strings.Contains(alphabet, string([]byte{b})) && strings.IndexByte(alphabet, b) < 0 {
+		panic("zzverif: replay byte outside its alphabet")
+	}
+	return b
+}
+
+// StringFrom is a string of n symbolic bytes over the alphabet.
+func StringFrom(name string, n int, alphabet string) string {
+	b := make([]byte, n)
+	for i := range b {
+		b[i] = ByteFrom(fmt.Sprintf("%s[%d]", name, i), alphabet)
+	}
+	return string(b)
+}
+
+// IntRange is a symbolic int in [lo,hi] (no forking).
+func IntRange(name string, lo, hi int) int {
+	v := int(int64(next(name, "i64")))
+	if v < lo || v > hi {
+		panic("zzverif: replay int outside its range")
+	}
+	return v
+}
+
 // Choice returns a value in [0,n); the engine explores all of them.
 func Choice(name string, n int) int {
 	v := int(next(name, "choice"))
